@@ -504,4 +504,43 @@ def Pc.final : Pc → Bool
   | .done | .fail _ | .crash | .stuck | .hung _ | .tee => true
   | _ => false
 
+/-! ### a stream configuration that depends on the session
+
+`negotiator` (negotiator.go) calls the function it was built from — `cfg = f(s, &cfg)` — in
+**every** negotiator call, after the header exchange (if any) and before `negotiateFeatures`; the
+features it returns may depend on the session (`NewNegotiator` documents this).  The session state
+does not change between that call and the end of the features list that is written or read, but a
+non-restarting mandatory feature changes it before the *next* list of the same stream.  `F st` is
+the list of features the function returns for a session in state `st`; `DConf.cfg` is the
+`StreamConfig` of the current negotiator call (`nState.cfg`). -/
+
+structure DConf where
+  c : Conf
+  cfg : List Feature
+  deriving Repr
+
+/-- the configuration in force for the step from `c`: looked up afresh at the entry of
+`negotiateFeatures`, otherwise the one of the current negotiator call -/
+def cfgAt (F : St → List Feature) (c : Conf) (cur : List Feature) : List Feature :=
+  if c.pc = .feat then F c.st else cur
+
+def stepD (F : St → List Feature) (O : Oracle) (d : DConf) : DConf :=
+  ⟨step (cfgAt F d.c d.cfg) O d.c, cfgAt F d.c d.cfg⟩
+
+def runD (F : St → List Feature) (O : Oracle) : Nat → DConf → DConf
+  | 0, d => d
+  | n + 1, d => runD F O n (stepD F O d)
+
+def initD (F : St → List Feature) (st0 : St) (script : List Peer) (picks : List FName) : DConf :=
+  ⟨init st0 script picks, F st0⟩
+
+/-- the same with a tee in the `StreamConfig` -/
+structure DTConf where
+  t : TConf
+  cfg : List Feature
+  deriving Repr
+
+def stepDT (tee : Bool) (F : St → List Feature) (O : Oracle) (d : DTConf) : DTConf :=
+  ⟨stepT tee (cfgAt F d.t.c d.cfg) O d.t, cfgAt F d.t.c d.cfg⟩
+
 end XmppModel.Negotiate
